@@ -81,6 +81,8 @@ class Oracle:
         # sum_m taps[m] * input(t - m*dt), the input being the (gain times the) sum of the received signals at ANY
         # time, also before the requested window (that is what the lead-in is for)
         self.taps = [Fr(c) for c in cfg["taps"]] if cfg["kind"] == "sys" and cfg.get("taps") else [Fr(1)]
+        # cable delay: the front end stamps its output with times + D, so the output at t is the input at t - D
+        self.shift = Fr(cfg["shift"]) if cfg["kind"] == "sys" and cfg.get("shift") else Fr(0)
         self.received = []
 
     def trig(self, vals):
@@ -90,7 +92,7 @@ class Oracle:
 
     def fe_of(self, sigs, times):
         dt = times[1] - times[0]
-        return [sum((c * self.k * sum((interp_fr(t - m * dt, ts, vs) for ts, vs in sigs), Fr(0))
+        return [sum((c * self.k * sum((interp_fr(t - self.shift - m * dt, ts, vs) for ts, vs in sigs), Fr(0))
                      for m, c in enumerate(self.taps)), Fr(0)) for t in times]
 
     def wave(self, times):
@@ -148,8 +150,16 @@ def _classes():
     class LinSystem(AntennaSystem):
         k = 1.0
         taps = None
+        shift = 0.0
 
         def front_end(self, signal):
+            out = self._front_end_values(signal)
+            if self.shift:
+                # cable delay / delay line: same samples, later time stamps (the output grid is NOT the input grid)
+                return Signal(np.asarray(out.times) + self.shift, out.values, value_type=out.value_type)
+            return out
+
+        def _front_end_values(self, signal):
             if self.taps is None:
                 if self.k == 1.0:
                     return super().front_end(signal)
@@ -191,6 +201,8 @@ def build(cfg, noisy=False):
             s.k = float(Fr(cfg.get("k", "1/1")))
             if cfg.get("taps"):
                 s.taps = [float(Fr(c)) for c in cfg["taps"]]
+            if cfg.get("shift"):
+                s.shift = float(Fr(cfg["shift"]))
             return s
         return a
     if kind == "real":
@@ -277,9 +289,13 @@ def cfg_lit(cfg, invalidate=True):
     inv = "true" if invalidate else "false"
     base = "(cfg_thr %s %s)" % (qlit(Fr(cfg["thr"])), inv) if cfg.get("thr") is not None else "(cfg_plain %s)" % inv
     if cfg["kind"] == "sys":
-        return "(mkSConfig %s %s %s %s)" % (base, qlit(Fr(cfg.get("lead_in", "0/1"))), qlit(Fr(cfg.get("k", "1/1"))),
-                                            qlist([Fr(c) for c in cfg.get("taps") or []]))
+        return "(mkSConfig %s %s %s %s %s)" % (base, qlit(Fr(cfg.get("lead_in", "0/1"))), qlit(Fr(cfg.get("k", "1/1"))), shift_lit(cfg),
+                                               qlist([Fr(c) for c in cfg.get("taps") or []]))
     return base
+
+
+def shift_lit(cfg):
+    return "(Some %s)" % qlit(Fr(cfg["shift"])) if cfg.get("shift") else "None"
 
 
 def op_lit(op, stored):
@@ -542,6 +558,13 @@ def rand_cfg(rng, i):
             mem = len(taps) - 1
             cfg["taps"] = [fs(Fr(c)) for c in taps]
             cfg["lead_in"] = fs(rng.choice([Fr(2 * mem), Fr(2 * mem) + Fr(1, 2), Fr(2 * mem) + Fr(11, 4), Fr(4 * mem + 3)]))
+        if rng.random() < 0.45:
+            # front end whose output is NOT on the grid it was given: a cable delay D stamps the output with
+            # times + D.  D is a whole number of samples for every grid step used (multiple of 2) so that the
+            # property oracle in(t - D) is exact; the lead-in covers the delay plus the filter memory.
+            D = Fr(rng.choice([2, 2, 4, 6]))
+            cfg["shift"] = fs(D)
+            cfg["lead_in"] = fs(Fr(cfg["lead_in"]) + D + rng.choice([Fr(0), Fr(1, 2), Fr(3)]))
     return cfg
 
 
@@ -682,7 +705,10 @@ NOISE_CFGS = [{"kind": "exact"}, {"kind": "sys", "lead_in": "3/1", "k": "2/1"},
               {"kind": "sys", "lead_in": "5/2", "k": "2/1", "taps": ["1/1", "-1/1"]},
               {"kind": "sys", "lead_in": "27/4", "k": "-1/1", "taps": ["1/4", "1/2", "1/4"]},
               {"kind": "sys", "lead_in": "10/1", "k": "1/2", "thr": "3/1", "taps": ["2/1", "0/1", "0/1", "-1/1"]},
-              {"kind": "sys", "lead_in": "10/1", "k": "1/1", "taps": ["0/1", "0/1", "0/1", "0/1", "0/1", "1/1"]}]
+              {"kind": "sys", "lead_in": "10/1", "k": "1/1", "taps": ["0/1", "0/1", "0/1", "0/1", "0/1", "1/1"]},
+              # cable delay (output stamped with times + D), alone and behind a filter
+              {"kind": "sys", "lead_in": "9/2", "k": "2/1", "shift": "4/1"},
+              {"kind": "sys", "lead_in": "7/1", "k": "1/1", "shift": "2/1", "taps": ["1/1", "-1/1"]}]
 
 _G8 = {"t0": "0/1", "dt": "1/1", "n": 8}
 NOISE_FIXED = [
@@ -708,8 +734,8 @@ def noise_model_expr(cfg, hist):
     gen = iter([expected_stored(op) for op in hist if op[0] in ("recv", "recv2")])
     ops = "[" + "; ".join(op_lit(op, next(gen) if op[0] in ("recv", "recv2") else None) for op in hist) + "]"
     if cfg["kind"] == "sys":
-        sc = "(mkSConfig (cfg_epoch true) %s %s %s)" % (qlit(Fr(cfg.get("lead_in", "0/1"))), qlit(Fr(cfg.get("k", "1/1"))),
-                                                       qlist([Fr(c) for c in cfg.get("taps") or []]))
+        sc = "(mkSConfig (cfg_epoch true) %s %s %s %s)" % (qlit(Fr(cfg.get("lead_in", "0/1"))), qlit(Fr(cfg.get("k", "1/1"))), shift_lit(cfg),
+                                                          qlist([Fr(c) for c in cfg.get("taps") or []]))
         return "enc_masters (s_run_masters %s s_init %s)" % (sc, ops)
     return "enc_masters (run_masters (cfg_epoch true) a_init %s)" % ops
 
@@ -812,7 +838,7 @@ def noise_run(cfg, hist, seed):
         dt = times[1] - times[0]
         exp = np.zeros(len(times))
         for m, c in enumerate(taps):
-            exp += c * k * np.asarray(ant.make_noise(np_times([t - m * dt for t in times])).values)
+            exp += c * k * np.asarray(ant.make_noise(np_times([t - orc.shift - m * dt for t in times])).values)
         return exp
 
     def note(sig, what, with_signals=True):
@@ -918,7 +944,7 @@ def leadin_check(ctx, n_cases):
         g = rand_grid(rng, -40, 60)
         g["n"] = rng.choice([2, 3, 4, 5, 8, 9, 16, 31, 40, rng.randint(2, 64)])
         cases.append((L, g))
-    exprs = ["enc_Qs (lead_in_times (mkSConfig (cfg_plain true) %s 1 []) %s)" % (qlit(L), qlist(grid_times(g))) for L, g in cases]
+    exprs = ["enc_Qs (lead_in_times (mkSConfig (cfg_plain true) %s 1 None []) %s)" % (qlit(L), qlist(grid_times(g))) for L, g in cases]
     try:
         vals = ctx.coq_eval_exprs(IMPORTS, exprs, chunk=max(1, (len(exprs) + 7) // 8))
         model = []
@@ -1101,7 +1127,7 @@ def replay(ctx, obj):
         print("lead_in_time=%s window=%s" % (L, g))
         print("implementation lead-in grid: %s" % [str(x) for x in out])
         try:
-            v = ctx.coq_eval_exprs(IMPORTS, ["enc_Qs (lead_in_times (mkSConfig (cfg_plain true) %s 1 []) %s)" % (qlit(L), qlist(grid_times(g)))])[0]
+            v = ctx.coq_eval_exprs(IMPORTS, ["enc_Qs (lead_in_times (mkSConfig (cfg_plain true) %s 1 None []) %s)" % (qlit(L), qlist(grid_times(g)))])[0]
             z = parse_zlist(v)
             print("coq model lead-in grid     : %s" % [str(Fr(z[1 + 2 * i], z[2 + 2 * i])) for i in range(z[0])])
         except Exception as e:   # noqa
